@@ -116,6 +116,30 @@ let repair_case line =
     String.concat "," (List.map (fun (f, i, l, v) -> Printf.sprintf "%d:%d:%d:%d" f i l v) l) in
   Printf.sprintf "H{%s}C{%s}" (side y.hot) (side y.cold)
 
+(* warm mode: `m n (kind ft id served)*`  - what reached the cold store during one command, in order
+   (m: 0 = the store's own warm_up call, 1 = warm-up by access; kind 0 = warm_up call, 1 = read, 2 = one-byte probe
+   read of WarmUpAccessBackend, 3 = the store cooled down: a new command starts).  Per segment the events are
+   turned into LWarm / LRead; output `disc=<1|0>` (extracted disciplined_from on every segment) and `acc=<1|0>`
+   (the extracted cold_run predicts exactly the observed served / rejected flags of the reads). *)
+let warm_case line =
+  let t = toks line in
+  let m = if ni t = 1 then WAccess else WExplicit in
+  let n = ni t in
+  let segs = ref [] and cur = ref [] in
+  for _ = 1 to n do
+    let kind = ni t in let ft = fts.(ni t) in let i = ni t in let served = ni t = 1 in
+    if kind = 3 then (segs := List.rev !cur :: !segs; cur := [])
+    else cur := (kind, (ft, n_of_int i), served) :: !cur
+  done;
+  segs := List.rev !cur :: !segs;
+  let disc = ref true and acc = ref true in
+  List.iter (fun seg ->
+    let evs = List.map (fun (kind, k, _) -> if kind = 1 then LRead k else LWarm k) seg in
+    let obs = List.filter_map (fun (kind, _, served) -> if kind = 1 then Some served else None) seg in
+    if not (disciplined_from [] evs) then disc := false;
+    if cold_run m [] evs <> obs then acc := false) !segs;
+  Printf.sprintf "disc=%d acc=%d" (if !disc then 1 else 0) (if !acc then 1 else 0)
+
 let () =
   let mode = if Array.length Sys.argv > 2 then Sys.argv.(2) else "ops" in
-  main_loop (match mode with "log" -> log_case | "repair" -> repair_case | _ -> ops_case)
+  main_loop (match mode with "log" -> log_case | "repair" -> repair_case | "warm" -> warm_case | _ -> ops_case)
